@@ -294,6 +294,24 @@ def R4_inside(run):
                             got.append("?" + sh(comp, 40))
                             continue
                         w0 = wsub(w1[0])
+                        grouped = strip(w1[1])
+                        if not w0 and is_param(w1[0], "fee_growth_global_" + side) and grouped[0] == "call" and grouped[1].endswith("wrapping_add") and len(grouped[2]) == 2:
+                            # global - (below + above): the same value modulo 2^128
+                            cand = [(grouped[2][0], grouped[2][1]), (grouped[2][1], grouped[2][0])]
+                            pick = [c_ for c_ in cand if not classify(c_[0], side, "lower").startswith("?") and not classify(c_[1], side, "upper").startswith("?")]
+                            if pick:
+                                below, above = classify(pick[0][0], side, "lower"), classify(pick[0][1], side, "upper")
+                                got.append("%s: global - (%s + %s)" % (side, below, above))
+                                if (below, above) != (lwant, uwant):
+                                    ok = False
+                                continue
+                        if not w0 and is_param(w1[0], "fee_growth_global_" + side) and not classify(grouped, side, "lower").startswith("?"):
+                            # global - (below + 0): the zero term of an uninitialised upper tick folds away
+                            below, above = classify(grouped, side, "lower"), "zero"
+                            got.append("%s: global - (%s + 0)" % (side, below))
+                            if (below, above) != (lwant, uwant):
+                                ok = False
+                            continue
                         if not w0 or not is_param(w0[0], "fee_growth_global_" + side):
                             ok = False
                             got.append("?" + sh(comp, 40))
